@@ -25,6 +25,31 @@
 //	    Statements that only assign variables of non-integer types (objects) and bare calls are
 //	    skipped: the region describes the integer data flow only.
 //
+//
+// Round 4 (work package c16tie) — whole methods that MUTATE their receiver (run-time: lean/Gzx/GoMTie.lean):
+//      * every translatable field of a struct parameter (`b.bits`, `b.size` …) is a local of the translation: `b.f = v`,
+//        `b.f[i] op= v`, `b.f++` rebind it (SSA style); the fields written through a POINTER parameter are returned after
+//        the Go results, in parameter / field order (a method without results returns just them); a slice parameter whose
+//        elements are written is returned the same way.  Two pointer parameters are assumed not to alias;
+//      * `x == nil` of a pointer-to-struct parameter is the Bool parameter `x_isNil`; a result of type *T whose every
+//        `return` yields a struct parameter or `&T{…}` is returned as the fields of T; `x = F(args)` with F such a
+//        constructor translated earlier re-points the struct parameter;
+//      * `r.M(args)` with r a struct parameter and M a method translated EARLIER into the same module (its only struct
+//        parameter being its receiver): as an expression when M writes nothing, as a statement otherwise (the written
+//        fields of r are rebound); `copy(dst, src)` / `copy(dst[a:b], src)` on local / field slices (`cap = len`);
+//      * `for cond { … }` (and any `for init; cond; post` whose header is not counted: non-constant step, bound that the
+//        body changes, loop variable assigned in the body): `Gzx.GoM.whileLoop body fuel st`, the definition then takes
+//        `(fuel : Nat)` first; conjuncts of the condition are tested left to right, so a checked read on the right of `&&`
+//        is only made when the left holds; `for i := range xs` whose body writes elements of xs (no value variable);
+//      * `a[i], a[j] = a[j], a[i]`: operands first, then the writes left to right on the same slice;
+//      * `bits.Reverse32` / `bits.TrailingZeros32` as the specified functions `Gzx.GoM.rev32` / `tz32`; `[]int{…}` and `nil`
+//        as results of slice type; `int(<float64 expression>)` with the float arithmetic as Lean `Float` (opaque to proofs:
+//        the kernel keeps a definition, its theorem fails by name); Go identifiers that are Lean keywords are escaped;
+//      * block scoping: names declared in a nested block go out of scope at its end (sibling blocks may reuse a name);
+//      * in functions that work on slice state of a struct parameter ("tie mode") an `if` whose branches fall through and
+//        which is followed by more statements is ONE control value (`.next (vars)` per branch, joined by `thenR`/`thenC`)
+//        instead of the continuation being duplicated into both branches.
+//
 // A function that does not fit yields NO definition, `untranslatable` in gen-manifest.json and
 // `def has_<leanName> : Bool := false` in the generated module.
 package main
@@ -63,6 +88,103 @@ type mstate struct {
 	dropRes   []bool // result positions of object type that the translation omits
 	join      []string // non-nil: translating a branch of a joined `if`; falling off the end yields these
 	inJoin    bool
+	// --- round 4 (wp c16tie): mutable receiver state, while loops, callee methods ---
+	outVars  []string // struct-field locals ("b_bits") / slice parameters the function writes: returned with every return
+	void     bool     // the Go function has no results
+	resTypes []string // Lean types of the (non-dropped) Go results
+	fuelUsed bool     // a `for cond {}` loop (or a callee with one) was emitted: the definition takes `(fuel : Nat)`
+	tie      bool     // the function reads / writes slice state of a struct parameter: round-4 translation rules
+	structRes map[int]*types.Struct // result positions of type *T (T a struct of translatable fields) returned as the fields
+}
+
+// ctorInfo: a translated function `func F(args) *T { return &T{...} }` (callable as `x = F(args)` for a struct parameter x)
+type ctorInfo struct {
+	lean   string
+	nplain int
+	fields []string
+}
+
+var ctorCallees = map[string]ctorInfo{} // "<module>|<pkg>.<Func>"
+
+// structFields: names and Lean types of the fields of st, if all are translatable
+func structFields(st *types.Struct) ([]string, []string, bool) {
+	var ns, ts []string
+	for j := 0; j < st.NumFields(); j++ {
+		lt, err := leanTypeM(st.Field(j).Type())
+		if err != nil {
+			return nil, nil, false
+		}
+		ns = append(ns, st.Field(j).Name())
+		ts = append(ts, lt)
+	}
+	return ns, ts, len(ns) > 0
+}
+
+// structResultOK: every `return` of fd yields, at result position ri, a struct parameter or a composite literal of st
+func (fc *fnCtx) structResultOK(fd *ast.FuncDecl, ri int) bool {
+	ok, any := true, false
+	ast.Inspect(fd.Body, func(n ast.Node) bool {
+		switch x := n.(type) {
+		case *ast.FuncLit:
+			return false
+		case *ast.ReturnStmt:
+			if ri >= len(x.Results) {
+				ok = false
+				return false
+			}
+			any = true
+			r := x.Results[ri]
+			if u, isU := r.(*ast.UnaryExpr); isU && u.Op == token.AND {
+				r = u.X
+			}
+			switch y := r.(type) {
+			case *ast.Ident:
+				if _, isS := fc.structs[y.Name]; !isS {
+					ok = false
+				}
+			case *ast.CompositeLit:
+			default:
+				ok = false
+			}
+		}
+		return ok
+	})
+	return ok && any
+}
+
+// scopeEnd is a synthetic statement appended to a block when the block's statements are spliced in front of
+// the statements that follow it: the names the block declared go out of scope there.
+type scopeEnd struct {
+	ast.EmptyStmt
+	names []string
+}
+
+// methodInfo: a translated method whose only struct parameter is its receiver (callable from later kernels).
+type methodInfo struct {
+	lean    string
+	fields  []string // receiver fields that are parameters, in parameter order
+	nplain  int
+	nres    int      // Go results that are part of the translation
+	outs    []string // receiver fields written (returned after the Go results)
+	fuel    bool
+	resBool bool
+}
+
+var methodCallees = map[string]methodInfo{} // "<module>|<pkg>.<Recv>.<Method>"
+
+// curFC: the function being translated (assignedIn needs type information to see through method calls).
+var curFC *fnCtx
+
+// extraImports: generated modules that need more than Gzx.GoM (read by main.go when it writes the header).
+var extraImports = map[string][]string{}
+
+func needTie(module string) {
+	for _, i := range extraImports[module] {
+		if i == "Gzx.GoMTie" {
+			return
+		}
+	}
+	extraImports[module] = append(extraImports[module], "Gzx.GoMTie")
 }
 
 type calleeInfo struct {
@@ -345,6 +467,14 @@ func assignedAnywhere(p *packages.Package, obj *types.Var) bool {
 func (fc *fnCtx) mexpr(ex ast.Expr) (string, bool, error) {
 	fail := func(f string, a ...interface{}) (string, bool, error) { return "", true, fmt.Errorf(f, a...) }
 	switch x := ex.(type) {
+	case *ast.SelectorExpr:
+		if key, lt, ok := fc.fieldKey(x); ok {
+			fc.fieldsUsed[key] = lt
+			if _, seen := fc.locals[key]; seen {
+				return fc.name(key), true, nil
+			}
+			return key, true, nil
+		}
 	case *ast.IndexExpr:
 		base, err := fc.lexpr(x.X)
 		if err != nil {
@@ -371,6 +501,27 @@ func (fc *fnCtx) mexpr(ex ast.Expr) (string, bool, error) {
 			return r, true, nil
 		}
 	case *ast.BinaryExpr:
+		if x.Op == token.EQL || x.Op == token.NEQ {
+			var other ast.Expr
+			if id, ok := x.Y.(*ast.Ident); ok && id.Name == "nil" {
+				other = x.X
+			} else if id, ok := x.X.(*ast.Ident); ok && id.Name == "nil" {
+				other = x.Y
+			}
+			if id, ok := other.(*ast.Ident); ok {
+				if _, isS := fc.structs[id.Name]; isS {
+					key := id.Name + "_isNil"
+					if _, seen := fc.locals[key]; !seen {
+						return fail("nil test of value parameter %s", id.Name)
+					}
+					fc.fieldsUsed[key] = "Bool"
+					if x.Op == token.EQL {
+						return fc.name(key), true, nil
+					}
+					return "(!" + fc.name(key) + ")", true, nil
+				}
+			}
+		}
 		switch x.Op {
 		case token.LAND, token.LOR:
 			a, err := fc.expr(x.X)
@@ -428,6 +579,19 @@ func (fc *fnCtx) mexpr(ex ast.Expr) (string, bool, error) {
 		// conversions
 		if tv, ok := fc.p.TypesInfo.Types[x.Fun]; ok && tv.IsType() && len(x.Args) == 1 {
 			if lt, err := leanType(tv.Type); err == nil && lt == "Int" {
+				if isFloat(fc.p.TypesInfo.TypeOf(x.Args[0])) {
+					// int(<float64 expression>): the float arithmetic is Lean `Float` (IEEE binary64), opaque to proofs
+					f, err := fc.fexpr(x.Args[0])
+					if err != nil {
+						return "", true, err
+					}
+					needTie(fc.m.module)
+					r := "(Gzx.GoM.floatToInt " + f + ")"
+					if n := unsignedBits(tv.Type); n > 0 {
+						r = fmt.Sprintf("(Gzx.GoM.wrap %d %s)", n, r)
+					}
+					return r, true, nil
+				}
 				a, err := fc.expr(x.Args[0])
 				if err != nil {
 					return "", true, err
@@ -523,7 +687,36 @@ func (fc *fnCtx) mexpr(ex ast.Expr) (string, bool, error) {
 						s, err := fc.expr(&ast.SelectorExpr{X: id, Sel: &ast.Ident{Name: field}})
 						return s, true, err
 					}
-					return fail("method call %s.%s is not a plain getter", id.Name, sel.Sel.Name)
+					if _, _, ok := fc.methodCallee(x); !ok {
+						return fail("method call %s.%s is not a plain getter", id.Name, sel.Sel.Name)
+					}
+				}
+			}
+		}
+		if recv, mi, ok := fc.methodCallee(x); ok {
+			// a translated method of a struct parameter, in expression position: it must not write its receiver
+			if len(mi.outs) != 0 || mi.nres != 1 {
+				return fail("method call %s.%s in an expression writes its receiver / has no single result", recv, mi.lean)
+			}
+			call, err := fc.methodCallText(recv, mi, x)
+			if err != nil {
+				return "", true, err
+			}
+			return fc.bind(call), true, nil
+		}
+		if sel, ok := x.Fun.(*ast.SelectorExpr); ok {
+			if pk, ok := sel.X.(*ast.Ident); ok {
+				if pn, ok := fc.p.TypesInfo.Uses[pk].(*types.PkgName); ok && pn.Imported().Path() == "math/bits" && len(x.Args) == 1 {
+					fn := map[string]string{"Reverse32": "rev32", "TrailingZeros32": "tz32"}[sel.Sel.Name]
+					if fn == "" {
+						return fail("bits.%s is not a specified function", sel.Sel.Name)
+					}
+					a, err := fc.expr(x.Args[0])
+					if err != nil {
+						return "", true, err
+					}
+					needTie(fc.m.module)
+					return fmt.Sprintf("(Gzx.GoM.%s %s)", fn, a), true, nil
 				}
 			}
 		}
@@ -571,6 +764,91 @@ func (fc *fnCtx) mexpr(ex ast.Expr) (string, bool, error) {
 	return "", false, nil
 }
 
+func isFloat(t types.Type) bool {
+	if t == nil {
+		return false
+	}
+	b, ok := t.Underlying().(*types.Basic)
+	return ok && b.Info()&types.IsFloat != 0
+}
+
+// fexpr translates a float64-valued expression into Lean `Float` (IEEE binary64, the same operations): constants,
+// `float64(<int>)`, + - * /, math.Ceil / Floor / Trunc / Sqrt.  Theorems cannot look inside `Float`: a kernel that
+// acquires float arithmetic keeps its definition, and the theorem about it fails by name.
+func (fc *fnCtx) fexpr(ex ast.Expr) (string, error) {
+	if tv, ok := fc.p.TypesInfo.Types[ex]; ok && tv.Value != nil {
+		r := constant.ToFloat(tv.Value)
+		if r.Kind() == constant.Unknown {
+			return "", fmt.Errorf("float constant")
+		}
+		num, den := constant.Num(r), constant.Denom(r)
+		n, ok1 := constant.Int64Val(num)
+		d, ok2 := constant.Int64Val(den)
+		lim := int64(1) << 53
+		if num.Kind() != constant.Int || den.Kind() != constant.Int || !ok1 || !ok2 || n >= lim || n <= -lim || d >= lim {
+			return "", fmt.Errorf("float constant is not a small rational")
+		}
+		if d == 1 {
+			return fmt.Sprintf("(Float.ofInt (%d))", n), nil
+		}
+		return fmt.Sprintf("(Float.ofInt (%d) / Float.ofInt %d)", n, d), nil
+	}
+	switch x := ex.(type) {
+	case *ast.ParenExpr:
+		return fc.fexpr(x.X)
+	case *ast.BinaryExpr:
+		switch x.Op {
+		case token.ADD, token.SUB, token.MUL, token.QUO:
+			a, err := fc.fexpr(x.X)
+			if err != nil {
+				return "", err
+			}
+			b, err := fc.fexpr(x.Y)
+			if err != nil {
+				return "", err
+			}
+			return fmt.Sprintf("(%s %s %s)", a, x.Op.String(), b), nil
+		}
+	case *ast.UnaryExpr:
+		if x.Op == token.SUB {
+			a, err := fc.fexpr(x.X)
+			if err != nil {
+				return "", err
+			}
+			return "(- " + a + ")", nil
+		}
+	case *ast.CallExpr:
+		if tv, ok := fc.p.TypesInfo.Types[x.Fun]; ok && tv.IsType() && len(x.Args) == 1 && isFloat(tv.Type) {
+			src := fc.p.TypesInfo.TypeOf(x.Args[0])
+			if isFloat(src) {
+				return fc.fexpr(x.Args[0])
+			}
+			if lt, err := leanType(src); err == nil && lt == "Int" {
+				a, err := fc.expr(x.Args[0])
+				if err != nil {
+					return "", err
+				}
+				return "(Float.ofInt " + a + ")", nil
+			}
+		}
+		if sel, ok := x.Fun.(*ast.SelectorExpr); ok && len(x.Args) == 1 {
+			if pk, ok := sel.X.(*ast.Ident); ok {
+				if pn, ok := fc.p.TypesInfo.Uses[pk].(*types.PkgName); ok && pn.Imported().Path() == "math" {
+					fn := map[string]string{"Ceil": "Float.ceil", "Floor": "Float.floor", "Trunc": "Float.trunc", "Sqrt": "Float.sqrt"}[sel.Sel.Name]
+					if fn != "" {
+						a, err := fc.fexpr(x.Args[0])
+						if err != nil {
+							return "", err
+						}
+						return "(" + fn + " " + a + ")", nil
+					}
+				}
+			}
+		}
+	}
+	return "", fmt.Errorf("unsupported float expression %T", ex)
+}
+
 // trivialGetter: the method selected by sel is `func (r *T) M() U { return r.f }` -> "f".
 func trivialGetter(p *packages.Package, sel *ast.SelectorExpr) (string, bool) {
 	fn, ok := p.TypesInfo.Uses[sel.Sel].(*types.Func)
@@ -605,6 +883,221 @@ func trivialGetter(p *packages.Package, sel *ast.SelectorExpr) (string, bool) {
 		}
 	}
 	return "", false
+}
+
+// fieldKey: `x.f` with x a struct parameter -> ("x_f", Lean type of the field).
+func (fc *fnCtx) fieldKey(x *ast.SelectorExpr) (string, string, bool) {
+	id, ok := x.X.(*ast.Ident)
+	if !ok {
+		return "", "", false
+	}
+	st, ok := fc.structs[id.Name]
+	if !ok {
+		return "", "", false
+	}
+	for j := 0; j < st.NumFields(); j++ {
+		if st.Field(j).Name() == x.Sel.Name {
+			lt, err := leanTypeM(st.Field(j).Type())
+			if err != nil {
+				return "", "", false
+			}
+			return id.Name + "_" + x.Sel.Name, lt, true
+		}
+	}
+	return "", "", false
+}
+
+// usedFieldTypes: the struct-parameter fields a node mentions, with their Lean types
+func (fc *fnCtx) usedFieldTypes(nd ast.Node) map[string]string {
+	out := map[string]string{}
+	ast.Inspect(nd, func(n ast.Node) bool {
+		if sel, ok := n.(*ast.SelectorExpr); ok {
+			if key, lt, ok := fc.fieldKey(sel); ok {
+				out[key] = lt
+			}
+		}
+		return true
+	})
+	return out
+}
+
+var leanKeywords = map[string]bool{"end": true, "from": true, "at": true, "have": true, "show": true, "then": true, "fun": true,
+	"do": true, "in": true, "with": true, "match": true, "open": true, "by": true, "where": true, "def": true, "theorem": true,
+	"instance": true, "class": true, "structure": true, "namespace": true, "section": true, "variable": true, "universe": true,
+	"export": true, "using": true, "deriving": true, "mutual": true, "private": true, "protected": true, "macro": true,
+	"syntax": true, "notation": true, "infix": true, "prefix": true, "postfix": true, "local": true, "attribute": true,
+	"forall": true, "exists": true, "calc": true, "unless": true, "try": true, "catch": true, "finally": true, "mut": true,
+	"nomatch": true, "nofun": true, "abbrev": true, "axiom": true, "example": true, "inductive": true, "opaque": true,
+	"extends": true, "partial": true, "unsafe": true, "noncomputable": true, "nonrec": true, "suffices": true, "let": true,
+	"Type": true, "Sort": true, "Prop": true, "this": true}
+
+// leanIdent: a Go identifier as a Lean identifier (Lean keywords and the translator's own names are escaped)
+func leanIdent(n string) string {
+	if leanKeywords[n] {
+		return "«" + n + "»"
+	}
+	if n == "st" || n == "fuel" { // names the translator itself binds
+		return n + "_go"
+	}
+	return n
+}
+
+func relPkg(path string) string {
+	rel := strings.TrimPrefix(strings.TrimPrefix(path, modPath), "/")
+	if rel == "" {
+		rel = "."
+	}
+	return rel
+}
+
+// methodCallee: `r.M(args)` where r is a struct parameter and M a method translated earlier into this module.
+func (fc *fnCtx) methodCallee(call *ast.CallExpr) (string, methodInfo, bool) {
+	sel, ok := call.Fun.(*ast.SelectorExpr)
+	if !ok || fc.m == nil {
+		return "", methodInfo{}, false
+	}
+	id, ok := sel.X.(*ast.Ident)
+	if !ok {
+		return "", methodInfo{}, false
+	}
+	if _, isStruct := fc.structs[id.Name]; !isStruct {
+		return "", methodInfo{}, false
+	}
+	fn, ok := fc.p.TypesInfo.Uses[sel.Sel].(*types.Func)
+	if !ok || fn.Pkg() == nil {
+		return "", methodInfo{}, false
+	}
+	sig, ok := fn.Type().(*types.Signature)
+	if !ok || sig.Recv() == nil {
+		return "", methodInfo{}, false
+	}
+	mi, ok := methodCallees[fc.m.module+"|"+relPkg(fn.Pkg().Path())+"."+typeName(sig.Recv().Type())+"."+fn.Name()]
+	if !ok || mi.nplain != len(call.Args) {
+		return "", methodInfo{}, false
+	}
+	return id.Name, mi, true
+}
+
+// methodCallText: `<lean> [fuel] <receiver fields> <args>`
+func (fc *fnCtx) methodCallText(recv string, mi methodInfo, call *ast.CallExpr) (string, error) {
+	parts := []string{mi.lean}
+	if mi.fuel {
+		fc.m.fuelUsed = true
+		parts = append(parts, "fuel")
+	}
+	for _, f := range mi.fields {
+		s, err := fc.expr(&ast.SelectorExpr{X: &ast.Ident{Name: recv}, Sel: &ast.Ident{Name: f}})
+		if err != nil {
+			return "", err
+		}
+		parts = append(parts, s)
+	}
+	for _, a := range call.Args {
+		var s string
+		var err error
+		if _, lerr := leanType(fc.p.TypesInfo.TypeOf(a)); lerr != nil {
+			s, err = fc.lexpr(a)
+		} else {
+			s, err = fc.expr(a)
+		}
+		if err != nil {
+			return "", err
+		}
+		parts = append(parts, s)
+	}
+	return strings.Join(parts, " "), nil
+}
+
+// structValue: the field values of an expression of type *T / T: a struct parameter, or a composite literal
+func (fc *fnCtx) structValue(st *types.Struct, r ast.Expr) ([]string, error) {
+	if u, ok := r.(*ast.UnaryExpr); ok && u.Op == token.AND {
+		r = u.X
+	}
+	fns, fts, _ := structFields(st)
+	switch y := r.(type) {
+	case *ast.Ident:
+		if _, ok := fc.structs[y.Name]; !ok {
+			return nil, fmt.Errorf("struct-valued result %s is not a struct parameter", y.Name)
+		}
+		var vals []string
+		for _, f := range fns {
+			v, err := fc.expr(&ast.SelectorExpr{X: &ast.Ident{Name: y.Name}, Sel: &ast.Ident{Name: f}})
+			if err != nil {
+				return nil, err
+			}
+			vals = append(vals, v)
+		}
+		return vals, nil
+	case *ast.CompositeLit:
+		vals := make([]string, len(fns))
+		for i, ft := range fts {
+			vals[i] = map[string]string{"Int": "0", "Bool": "false", "List Int": "[]"}[ft]
+		}
+		for i, el := range y.Elts {
+			k := i
+			if kv, ok := el.(*ast.KeyValueExpr); ok {
+				k = -1
+				for j, f := range fns {
+					if id, ok := kv.Key.(*ast.Ident); ok && id.Name == f {
+						k = j
+					}
+				}
+				el = kv.Value
+			}
+			if k < 0 || k >= len(fns) {
+				return nil, fmt.Errorf("composite literal field")
+			}
+			var v string
+			var err error
+			if fts[k] == "List Int" {
+				v, err = fc.lexprOrMake(el)
+			} else {
+				v, err = fc.expr(el)
+			}
+			if err != nil {
+				return nil, err
+			}
+			vals[k] = v
+		}
+		return vals, nil
+	}
+	return nil, fmt.Errorf("struct-valued result %T", r)
+}
+
+// lvalueKey: the local an assignment target denotes: a plain local, or a field of a struct parameter.
+func (fc *fnCtx) lvalueKey(e ast.Expr) (string, bool) {
+	switch x := e.(type) {
+	case *ast.ParenExpr:
+		return fc.lvalueKey(x.X)
+	case *ast.Ident:
+		return x.Name, true
+	case *ast.SelectorExpr:
+		if key, lt, ok := fc.fieldKey(x); ok {
+			fc.fieldsUsed[key] = lt
+			if _, seen := fc.locals[key]; seen {
+				return key, true
+			}
+		}
+	}
+	return "", false
+}
+
+func (fc *fnCtx) isOutVar(name string) bool {
+	for _, o := range fc.m.outVars {
+		if o == name {
+			return true
+		}
+	}
+	return false
+}
+
+// outTuple: the values a return yields after the Go results
+func (fc *fnCtx) outNames() []string {
+	var ns []string
+	for _, o := range fc.m.outVars {
+		ns = append(ns, fc.name(o))
+	}
+	return ns
 }
 
 // ---------- statements ----------
@@ -667,6 +1160,10 @@ func (fc *fnCtx) mblock(stmts []ast.Stmt, lvl int) (string, error) {
 		if fc.m.body {
 			return ind(lvl) + ".next " + fc.stateTuple(), nil
 		}
+		if fc.m.void && !fc.m.region {
+			// falling off the end of a function without results: the written receiver state is the result
+			return ind(lvl) + ".ok (" + strings.Join(fc.outNames(), ", ") + ")", nil
+		}
 		return "", fmt.Errorf("path without return")
 	}
 	s := stmts[0]
@@ -679,6 +1176,11 @@ func (fc *fnCtx) mblock(stmts []ast.Stmt, lvl int) (string, error) {
 		return prefix + r, nil
 	}
 	switch x := s.(type) {
+	case *scopeEnd:
+		for _, n := range x.names {
+			delete(fc.locals, n)
+		}
+		return fc.mblock(rest, lvl)
 	case *ast.EmptyStmt:
 		return fc.mblock(rest, lvl)
 	case *ast.ReturnStmt:
@@ -687,6 +1189,14 @@ func (fc *fnCtx) mblock(stmts []ast.Stmt, lvl int) (string, error) {
 		}
 		var rs []string
 		for ri, r := range x.Results {
+			if st := fc.m.structRes[ri]; st != nil {
+				vals, err := fc.structValue(st, r)
+				if err != nil {
+					return "", err
+				}
+				rs = append(rs, vals...)
+				continue
+			}
 			if ri < len(fc.m.dropRes) && fc.m.dropRes[ri] {
 				// object-valued result: not part of the translation; it must be an expression that cannot panic
 				switch y := r.(type) {
@@ -713,14 +1223,21 @@ func (fc *fnCtx) mblock(stmts []ast.Stmt, lvl int) (string, error) {
 				}
 				continue
 			}
+			isList := len(rs) < len(fc.m.resTypes) && fc.m.resTypes[len(rs)] == "List Int"
 			if id, ok := r.(*ast.Ident); ok && id.Name == "nil" {
-				rs = append(rs, "false")
+				if isList {
+					rs = append(rs, "[]")
+				} else {
+					rs = append(rs, "false")
+				}
 				continue
 			}
 			var e string
 			var err error
 			if id, ok := r.(*ast.Ident); ok && fc.m.ltype[id.Name] == "List Int" {
 				e, err = fc.lexpr(r)
+			} else if isList {
+				e, err = fc.lexprOrMake(r)
 			} else {
 				e, err = fc.expr(r)
 			}
@@ -729,6 +1246,7 @@ func (fc *fnCtx) mblock(stmts []ast.Stmt, lvl int) (string, error) {
 			}
 			rs = append(rs, e)
 		}
+		rs = append(rs, fc.outNames()...)
 		v := "(" + strings.Join(rs, ", ") + ")"
 		kw := ".ok "
 		if fc.m.body {
@@ -753,25 +1271,33 @@ func (fc *fnCtx) mblock(stmts []ast.Stmt, lvl int) (string, error) {
 		if _, ok := x.X.(*ast.CallExpr); ok && fc.m.region {
 			return fc.mblock(rest, lvl)
 		}
+		if call, ok := x.X.(*ast.CallExpr); ok {
+			if text, handled, err := fc.mcallStmt(call, lvl); handled {
+				if err != nil {
+					return "", err
+				}
+				return cont(text)
+			}
+		}
 		return "", fmt.Errorf("expression statement")
 	case *ast.IncDecStmt:
-		id, ok := x.X.(*ast.Ident)
+		key, ok := fc.lvalueKey(x.X)
 		if !ok {
 			return "", fmt.Errorf("++/-- on non-local")
 		}
-		if _, ok := fc.locals[id.Name]; !ok {
-			return "", fmt.Errorf("free identifier %s", id.Name)
+		if _, ok := fc.locals[key]; !ok {
+			return "", fmt.Errorf("free identifier %s", key)
 		}
 		op := "+"
 		if x.Tok == token.DEC {
 			op = "-"
 		}
-		cur := fc.name(id.Name)
+		cur := fc.name(key)
 		val := fmt.Sprintf("(%s %s 1)", cur, op)
-		if n := unsignedBits(fc.p.TypesInfo.TypeOf(id)); n > 0 {
+		if n := unsignedBits(fc.p.TypesInfo.TypeOf(x.X)); n > 0 {
 			val = fmt.Sprintf("(Gzx.GoM.wrap %d %s)", n, val)
 		}
-		nn := fc.bump(id.Name)
+		nn := fc.bump(key)
 		return cont(fmt.Sprintf("%slet %s := %s\n", ind(lvl), nn, val))
 	case *ast.AssignStmt:
 		return fc.massign(x, rest, lvl)
@@ -836,7 +1362,13 @@ func (fc *fnCtx) mblock(stmts []ast.Stmt, lvl int) (string, error) {
 			// translate the init as a statement followed by the if without init
 			x2 := *x
 			x2.Init = nil
-			r, err := fc.mblock(append([]ast.Stmt{as, &x2}, rest...), lvl)
+			var initNames []string
+			for _, l := range as.Lhs {
+				if id, ok := l.(*ast.Ident); ok && id.Name != "_" {
+					initNames = append(initNames, id.Name)
+				}
+			}
+			r, err := fc.mblock(append([]ast.Stmt{as, &x2, &scopeEnd{names: initNames}}, rest...), lvl)
 			// the init variables go out of scope with the if; `rest` cannot mention them (Go scoping)
 			_ = saved0
 			return r, err
@@ -893,12 +1425,63 @@ func (fc *fnCtx) mblock(stmts []ast.Stmt, lvl int) (string, error) {
 			}
 			return sb.String() + r, nil
 		}
+		if vars, ok := fc.ctlJoinable(x, rest); ok {
+			// tie mode: both branches fall through and something follows — the `if` becomes ONE control value
+			// (`.next (vars)` at the end of each branch, `.ret` for an early return, `.panic` for a failed check)
+			// followed once by the rest, instead of the rest being duplicated into both branches
+			var stypes []string
+			for _, n := range vars {
+				stypes = append(stypes, fc.m.ltype[n])
+			}
+			sigma := "Unit"
+			if len(stypes) > 0 {
+				sigma = strings.Join(stypes, " × ")
+			}
+			saved := copyMap(fc.locals)
+			sBody, sState, sSwitch := fc.m.body, fc.m.state, fc.m.inSwitch
+			fc.m.body, fc.m.state, fc.m.inSwitch = true, vars, 0
+			th, err := fc.mblock(x.Body.List, lvl+2)
+			if err != nil {
+				return "", err
+			}
+			fc.locals = copyMap(saved)
+			var el string
+			switch e := x.Else.(type) {
+			case nil:
+				el = ind(lvl+2) + ".next " + fc.stateTuple()
+			case *ast.BlockStmt:
+				el, err = fc.mblock(e.List, lvl+2)
+			case *ast.IfStmt:
+				el, err = fc.mblock([]ast.Stmt{e}, lvl+2)
+			}
+			if err != nil {
+				return "", err
+			}
+			fc.locals = saved
+			fc.m.body, fc.m.state, fc.m.inSwitch = sBody, sState, sSwitch
+			then := "thenR"
+			if fc.m.body {
+				then = "thenC"
+			}
+			var sb strings.Builder
+			sb.WriteString(prefix)
+			fmt.Fprintf(&sb, "%s((if %s then\n%s\n%selse\n%s : Gzx.GoM.Ctl (%s) (%s))).%s fun st =>\n", ind(lvl), cond, th, ind(lvl+1), el, sigma, fc.m.retType, then)
+			for k, n := range vars {
+				nn := fc.bump(n)
+				fmt.Fprintf(&sb, "%slet %s := %s\n", ind(lvl), nn, proj(k, len(vars)))
+			}
+			r, err := fc.mblock(rest, lvl)
+			if err != nil {
+				return "", err
+			}
+			return sb.String() + r, nil
+		}
 		saved := copyMap(fc.locals)
 		fill := func(body []ast.Stmt) []ast.Stmt {
 			if endsControl(body) {
 				return append([]ast.Stmt{}, body...)
 			}
-			return append(append([]ast.Stmt{}, body...), rest...)
+			return append(fc.withScope(body), rest...)
 		}
 		th, err := fc.mblock(fill(x.Body.List), lvl+1)
 		if err != nil {
@@ -935,13 +1518,120 @@ func (fc *fnCtx) mblock(stmts []ast.Stmt, lvl int) (string, error) {
 				}
 			}
 		}
-		return fc.mblock(append(append([]ast.Stmt{}, x.List...), rest...), lvl)
+		return fc.mblock(append(fc.withScope(x.List), rest...), lvl)
 	case *ast.ForStmt:
 		return fc.mfor(x, rest, lvl)
 	case *ast.RangeStmt:
 		return fc.mrange(x, rest, lvl)
 	}
 	return "", fmt.Errorf("unsupported statement %T at %s", s, fc.p.Fset.Position(s.Pos()))
+}
+
+// ctlJoinable (tie mode only): an `if` that is not a pure join, whose branches fall through (no trailing
+// return / break / continue), contain no break / continue of an enclosing loop, and which is followed by more
+// statements.  Returns the visible locals the branches assign, in declaration order.
+func (fc *fnCtx) ctlJoinable(x *ast.IfStmt, rest []ast.Stmt) ([]string, bool) {
+	if !fc.m.tie || fc.m.inJoin || x.Init != nil {
+		return nil, false
+	}
+	more := false
+	for _, st := range rest {
+		if _, ok := st.(*scopeEnd); !ok {
+			more = true
+		}
+	}
+	if !more {
+		return nil, false
+	}
+	var stmts []ast.Stmt
+	var walk func(i *ast.IfStmt) bool
+	walk = func(i *ast.IfStmt) bool {
+		if i.Init != nil || endsControl(i.Body.List) {
+			return false
+		}
+		stmts = append(stmts, i.Body.List...)
+		switch e := i.Else.(type) {
+		case *ast.BlockStmt:
+			if endsControl(e.List) {
+				return false
+			}
+			stmts = append(stmts, e.List...)
+		case *ast.IfStmt:
+			return walk(e)
+		}
+		return true
+	}
+	if !walk(x) {
+		return nil, false
+	}
+	bad := false
+	for _, st := range stmts {
+		ast.Inspect(st, func(n ast.Node) bool {
+			switch n.(type) {
+			case *ast.ForStmt, *ast.RangeStmt, *ast.FuncLit:
+				return false
+			case *ast.BranchStmt, *ast.LabeledStmt, *ast.SwitchStmt:
+				bad = true
+			}
+			return !bad
+		})
+	}
+	if bad {
+		return nil, false
+	}
+	assigned, _ := assignedIn(stmts)
+	var vars []string
+	for _, n := range fc.m.declOrder {
+		if assigned[n] {
+			if _, vis := fc.locals[n]; vis {
+				if fc.isParam(n) && fc.m.ltype[n] == "List Int" && !fc.isOutVar(n) {
+					return nil, false
+				}
+				vars = append(vars, n)
+			}
+		}
+	}
+	return vars, true
+}
+
+// withScope: the statements of a block followed by a marker that ends the scope of the names it declares.
+func (fc *fnCtx) withScope(body []ast.Stmt) []ast.Stmt {
+	var names []string
+	add := func(id *ast.Ident) {
+		if id.Name == "_" {
+			return
+		}
+		if _, seen := fc.locals[id.Name]; !seen {
+			names = append(names, id.Name)
+		}
+	}
+	for _, st := range body {
+		switch y := st.(type) {
+		case *ast.AssignStmt:
+			if y.Tok == token.DEFINE {
+				for _, l := range y.Lhs {
+					if id, ok := l.(*ast.Ident); ok {
+						add(id)
+					}
+				}
+			}
+		case *ast.DeclStmt:
+			if gd, ok := y.Decl.(*ast.GenDecl); ok {
+				for _, sp := range gd.Specs {
+					if vs, ok := sp.(*ast.ValueSpec); ok {
+						for _, n := range vs.Names {
+							add(n)
+						}
+					}
+				}
+			}
+		}
+	}
+	out := append([]ast.Stmt{}, body...)
+	if len(names) > 0 {
+		out = append(out, &scopeEnd{names: names})
+	}
+	return out
 }
 
 // joinable: an `if` (without init) whose branches contain no control transfer, no loop, no checked
@@ -1011,7 +1701,32 @@ func (fc *fnCtx) joinable(x *ast.IfStmt) ([]string, bool) {
 }
 
 func (fc *fnCtx) lexprOrMake(ex ast.Expr) (string, error) {
+	if cl, ok := ex.(*ast.CompositeLit); ok {
+		if lt, err := leanTypeM(fc.p.TypesInfo.TypeOf(cl)); err != nil || lt != "List Int" {
+			return "", fmt.Errorf("unsupported composite literal")
+		}
+		var es []string
+		for _, el := range cl.Elts {
+			if _, ok := el.(*ast.KeyValueExpr); ok {
+				return "", fmt.Errorf("keyed composite literal")
+			}
+			e, err := fc.expr(el)
+			if err != nil {
+				return "", err
+			}
+			es = append(es, e)
+		}
+		return "[" + strings.Join(es, ", ") + "]", nil
+	}
 	if call, ok := ex.(*ast.CallExpr); ok {
+		if id, ok := call.Fun.(*ast.Ident); ok {
+			// a function translated earlier into this module that returns a slice
+			if fn, ok := fc.p.TypesInfo.Uses[id].(*types.Func); ok && fn.Pkg() != nil {
+				if _, ok := callees[fc.m.module+"|"+relPkg(fn.Pkg().Path())+"."+fn.Name()]; ok {
+					return fc.expr(ex)
+				}
+			}
+		}
 		if id, ok := call.Fun.(*ast.Ident); ok && id.Name == "make" && len(call.Args) == 2 {
 			if _, isBuiltin := fc.p.TypesInfo.Uses[id].(*types.Builtin); isBuiltin {
 				if _, err := leanTypeM(fc.p.TypesInfo.TypeOf(call)); err != nil {
@@ -1104,10 +1819,63 @@ func (fc *fnCtx) massign(x *ast.AssignStmt, rest []ast.Stmt, lvl int) (string, e
 	if len(x.Lhs) != len(x.Rhs) {
 		return "", fmt.Errorf("multi-value assignment")
 	}
-	// evaluate all right-hand sides first (Go semantics of parallel assignment)
+	// x = F(args): a struct parameter is re-pointed at a freshly constructed object (F translated earlier, `return &T{...}`)
+	if len(x.Lhs) == 1 && x.Tok == token.ASSIGN {
+		if id, ok := x.Lhs[0].(*ast.Ident); ok {
+			if st, isS := fc.structs[id.Name]; isS {
+				call, ok := x.Rhs[0].(*ast.CallExpr)
+				if !ok {
+					return "", fmt.Errorf("assignment to struct parameter %s", id.Name)
+				}
+				fid, ok := call.Fun.(*ast.Ident)
+				if !ok {
+					return "", fmt.Errorf("assignment to struct parameter %s", id.Name)
+				}
+				fn, ok := fc.p.TypesInfo.Uses[fid].(*types.Func)
+				if !ok || fn.Pkg() == nil {
+					return "", fmt.Errorf("assignment to struct parameter %s", id.Name)
+				}
+				ci, ok := ctorCallees[fc.m.module+"|"+relPkg(fn.Pkg().Path())+"."+fn.Name()]
+				if !ok || ci.nplain != len(call.Args) {
+					return "", fmt.Errorf("%s is not a translated constructor", fn.Name())
+				}
+				parts := []string{ci.lean}
+				for _, a := range call.Args {
+					s, err := fc.expr(a)
+					if err != nil {
+						return "", err
+					}
+					parts = append(parts, s)
+				}
+				t := fc.bind(strings.Join(parts, " "))
+				sb.WriteString(fc.flush(lvl))
+				fns, fts, _ := structFields(st)
+				for k, f := range fns {
+					key := id.Name + "_" + f
+					pr := t
+					if len(fns) > 1 {
+						pr = t + strings.Repeat(".2", k)
+						if k < len(fns)-1 {
+							pr += ".1"
+						}
+					}
+					fc.declare(key, fts[k])
+					fc.fieldsUsed[key] = fts[k]
+					fmt.Fprintf(&sb, "%slet %s := %s\n", ind(lvl), fc.name(key), pr)
+				}
+				if _, seen := fc.locals[id.Name+"_isNil"]; seen {
+					fc.declare(id.Name+"_isNil", "Bool")
+					fmt.Fprintf(&sb, "%slet %s := false\n", ind(lvl), fc.name(id.Name+"_isNil"))
+				}
+				return cont(sb.String())
+			}
+		}
+	}
+	// evaluate all index operands and right-hand sides first (Go semantics of parallel assignment), then
+	// assign left to right (two element writes to the same slice must see each other)
 	type tgt struct {
-		id   *ast.Ident
-		ix   *ast.IndexExpr
+		key  string
+		ix   string // index expression for an element write, "" otherwise
 		val  string
 		lt   string
 		skip bool
@@ -1122,8 +1890,15 @@ func (fc *fnCtx) massign(x *ast.AssignStmt, rest []ast.Stmt, lvl int) (string, e
 			tg = append(tg, tgt{skip: true})
 			continue
 		}
+		if pe, ok := l.(*ast.ParenExpr); ok {
+			l = pe.X
+		}
 		switch lx := l.(type) {
-		case *ast.Ident:
+		case *ast.Ident, *ast.SelectorExpr:
+			key, ok := fc.lvalueKey(l)
+			if !ok {
+				return "", fmt.Errorf("assignment to non-local")
+			}
 			lt, err := leanTypeM(typeOfLhs(l))
 			if err != nil {
 				if isErrorType(typeOfLhs(l)) {
@@ -1137,6 +1912,9 @@ func (fc *fnCtx) massign(x *ast.AssignStmt, rest []ast.Stmt, lvl int) (string, e
 				if x.Tok != token.DEFINE && x.Tok != token.ASSIGN {
 					return "", fmt.Errorf("operator assignment on a slice")
 				}
+				if _, isIdent := l.(*ast.Ident); isIdent && fc.isParam(key) && !fc.isOutVar(key) {
+					return "", fmt.Errorf("assignment to slice parameter %s", key)
+				}
 				val, err = fc.lexprOrMake(r)
 			} else {
 				val, err = fc.expr(r)
@@ -1145,25 +1923,25 @@ func (fc *fnCtx) massign(x *ast.AssignStmt, rest []ast.Stmt, lvl int) (string, e
 				return "", err
 			}
 			if x.Tok != token.DEFINE && x.Tok != token.ASSIGN {
-				if _, ok := fc.locals[lx.Name]; !ok {
-					return "", fmt.Errorf("free identifier %s", lx.Name)
+				if _, ok := fc.locals[key]; !ok {
+					return "", fmt.Errorf("free identifier %s", key)
 				}
-				val, err = fc.opAssign(x.Tok, fc.name(lx.Name), val, typeOfLhs(l), r)
+				val, err = fc.opAssign(x.Tok, fc.name(key), val, typeOfLhs(l), r)
 				if err != nil {
 					return "", err
 				}
 			}
-			tg = append(tg, tgt{id: lx, val: val, lt: lt})
+			tg = append(tg, tgt{key: key, val: val, lt: lt})
 		case *ast.IndexExpr:
-			bid, ok := lx.X.(*ast.Ident)
+			key, ok := fc.lvalueKey(lx.X)
 			if !ok {
 				return "", fmt.Errorf("assignment to non-local")
 			}
-			if _, ok := fc.locals[bid.Name]; !ok || fc.m.ltype[bid.Name] != "List Int" {
-				return "", fmt.Errorf("element assignment to non-local slice %s", bid.Name)
+			if _, ok := fc.locals[key]; !ok || fc.m.ltype[key] != "List Int" {
+				return "", fmt.Errorf("element assignment to non-local slice %s", key)
 			}
-			if fc.isParam(bid.Name) {
-				return "", fmt.Errorf("element assignment to parameter %s (visible to the caller)", bid.Name)
+			if fc.isParam(key) && !fc.isOutVar(key) {
+				return "", fmt.Errorf("element assignment to parameter %s (visible to the caller)", key)
 			}
 			i, err := fc.expr(lx.Index)
 			if err != nil {
@@ -1174,14 +1952,13 @@ func (fc *fnCtx) massign(x *ast.AssignStmt, rest []ast.Stmt, lvl int) (string, e
 				return "", err
 			}
 			if x.Tok != token.ASSIGN {
-				cur := fc.bind(fmt.Sprintf("Gzx.GoM.idx %s %s", fc.name(bid.Name), i))
+				cur := fc.bind(fmt.Sprintf("Gzx.GoM.idx %s %s", fc.name(key), i))
 				val, err = fc.opAssign(x.Tok, cur, val, fc.p.TypesInfo.TypeOf(lx), r)
 				if err != nil {
 					return "", err
 				}
 			}
-			nv := fc.bind(fmt.Sprintf("Gzx.GoM.setIdx %s %s %s", fc.name(bid.Name), i, val))
-			tg = append(tg, tgt{id: bid, val: nv, lt: "List Int"})
+			tg = append(tg, tgt{key: key, ix: i, val: val, lt: "List Int"})
 		default:
 			return "", fmt.Errorf("assignment to non-local")
 		}
@@ -1191,8 +1968,13 @@ func (fc *fnCtx) massign(x *ast.AssignStmt, rest []ast.Stmt, lvl int) (string, e
 		if t.skip {
 			continue
 		}
-		fc.declare(t.id.Name, t.lt)
-		fmt.Fprintf(&sb, "%slet %s := %s\n", ind(lvl), fc.name(t.id.Name), t.val)
+		val := t.val
+		if t.ix != "" {
+			val = fc.bind(fmt.Sprintf("Gzx.GoM.setIdx %s %s %s", fc.name(t.key), t.ix, t.val))
+			sb.WriteString(fc.flush(lvl))
+		}
+		fc.declare(t.key, t.lt)
+		fmt.Fprintf(&sb, "%slet %s := %s\n", ind(lvl), fc.name(t.key), val)
 	}
 	return cont(sb.String())
 }
@@ -1305,7 +2087,7 @@ func (fc *fnCtx) mswitch(x *ast.SwitchStmt, rest []ast.Stmt, lvl int) (string, e
 			}
 			return append([]ast.Stmt{}, body...)
 		}
-		return append(append([]ast.Stmt{}, body...), rest...)
+		return append(fc.withScope(body), rest...)
 	}
 	// a `break` inside an arm (not trailing) would leave the switch, not the loop: refuse
 	for _, a := range append(arms, arm{"", deflt}) {
@@ -1363,44 +2145,84 @@ func (fc *fnCtx) mswitch(x *ast.SwitchStmt, rest []ast.Stmt, lvl int) (string, e
 
 // ---------- loops ----------
 
-// assignedIn returns the names assigned (=, op=, ++, element writes) and the names declared (:=, var,
-// range keys) inside a statement list.
+// assignedIn returns the names assigned (=, op=, ++, element writes, copy, receiver fields written by a called
+// method) and the names declared (:=, var, range keys) inside a statement list.  A field `x.f` of a struct
+// parameter of the function being translated is the name "x_f".
 func assignedIn(stmts []ast.Stmt) (assigned, declared map[string]bool) {
-	assigned, declared = map[string]bool{}, map[string]bool{}
-	base := func(e ast.Expr) *ast.Ident {
-		for {
-			switch x := e.(type) {
-			case *ast.ParenExpr:
-				e = x.X
-			case *ast.IndexExpr:
-				e = x.X
-			case *ast.Ident:
-				return x
-			default:
-				return nil
+	assigned, declared, _ = assignedIn3(stmts)
+	return
+}
+
+// lvalName: the local (or struct-parameter field) an lvalue expression is rooted at; viaElem: reached through an
+// index / slice expression (the variable itself keeps its value, only elements change).
+func lvalName(e ast.Expr) (name string, viaElem bool) {
+	for {
+		switch x := e.(type) {
+		case *ast.ParenExpr:
+			e = x.X
+		case *ast.IndexExpr:
+			e, viaElem = x.X, true
+		case *ast.SliceExpr:
+			e, viaElem = x.X, true
+		case *ast.Ident:
+			return x.Name, viaElem
+		case *ast.SelectorExpr:
+			if curFC != nil {
+				if key, _, ok := curFC.fieldKey(x); ok {
+					return key, viaElem
+				}
 			}
+			return "", viaElem
+		default:
+			return "", viaElem
 		}
 	}
+}
+
+// assignedIn3 additionally returns the names assigned as a whole (not only through their elements).
+func assignedIn3(stmts []ast.Stmt) (assigned, declared, whole map[string]bool) {
+	assigned, declared, whole = map[string]bool{}, map[string]bool{}, map[string]bool{}
 	for _, st := range stmts {
+		if _, ok := st.(*scopeEnd); ok {
+			continue
+		}
 		ast.Inspect(st, func(n ast.Node) bool {
 			switch x := n.(type) {
 			case *ast.FuncLit:
 				return false
 			case *ast.AssignStmt:
 				for _, l := range x.Lhs {
-					if id := base(l); id != nil && id.Name != "_" {
+					if id, ok := l.(*ast.Ident); ok && curFC != nil && x.Tok == token.ASSIGN {
+						if st, isS := curFC.structs[id.Name]; isS {
+							// the struct parameter is re-pointed: all its fields change
+							for j := 0; j < st.NumFields(); j++ {
+								assigned[id.Name+"_"+st.Field(j).Name()] = true
+								whole[id.Name+"_"+st.Field(j).Name()] = true
+							}
+							assigned[id.Name+"_isNil"] = true
+							whole[id.Name+"_isNil"] = true
+							continue
+						}
+					}
+					if name, viaElem := lvalName(l); name != "" && name != "_" {
 						if x.Tok == token.DEFINE {
 							if _, isIdent := l.(*ast.Ident); isIdent {
-								declared[id.Name] = true
+								declared[name] = true
 								continue
 							}
 						}
-						assigned[id.Name] = true
+						assigned[name] = true
+						if !viaElem {
+							whole[name] = true
+						}
 					}
 				}
 			case *ast.IncDecStmt:
-				if id := base(x.X); id != nil {
-					assigned[id.Name] = true
+				if name, viaElem := lvalName(x.X); name != "" {
+					assigned[name] = true
+					if !viaElem {
+						whole[name] = true
+					}
 				}
 			case *ast.ValueSpec:
 				for _, nm := range x.Names {
@@ -1413,6 +2235,23 @@ func assignedIn(stmts []ast.Stmt) (assigned, declared map[string]bool) {
 							declared[id.Name] = true
 						} else {
 							assigned[id.Name] = true
+							whole[id.Name] = true
+						}
+					}
+				}
+			case *ast.CallExpr:
+				if curFC != nil {
+					if recv, mi, ok := curFC.methodCallee(x); ok {
+						for _, f := range mi.outs {
+							assigned[recv+"_"+f] = true
+							whole[recv+"_"+f] = true
+						}
+					}
+					if id, ok := x.Fun.(*ast.Ident); ok && id.Name == "copy" && len(x.Args) == 2 {
+						if _, isBuiltin := curFC.p.TypesInfo.Uses[id].(*types.Builtin); isBuiltin {
+							if name, _ := lvalName(x.Args[0]); name != "" {
+								assigned[name] = true
+							}
 						}
 					}
 				}
@@ -1429,9 +2268,64 @@ func mentions(e ast.Node, names map[string]bool) bool {
 		if id, ok := n.(*ast.Ident); ok && names[id.Name] {
 			found = true
 		}
+		if sel, ok := n.(*ast.SelectorExpr); ok && curFC != nil {
+			if key, _, ok := curFC.fieldKey(sel); ok && names[key] {
+				found = true
+			}
+		}
 		return !found
 	})
 	return found
+}
+
+// varies: like mentions, but `len(x)` of a slice whose elements (only) are assigned does not vary.
+func varies(e ast.Node, assigned, whole map[string]bool) bool {
+	found := false
+	ast.Inspect(e, func(n ast.Node) bool {
+		if call, ok := n.(*ast.CallExpr); ok && len(call.Args) == 1 {
+			if id, ok := call.Fun.(*ast.Ident); ok && id.Name == "len" {
+				if name, viaElem := lvalName(call.Args[0]); name != "" && !viaElem && !whole[name] {
+					return false
+				}
+			}
+		}
+		if id, ok := n.(*ast.Ident); ok && assigned[id.Name] {
+			found = true
+		}
+		if sel, ok := n.(*ast.SelectorExpr); ok && curFC != nil {
+			if key, _, ok := curFC.fieldKey(sel); ok && assigned[key] {
+				found = true
+			}
+		}
+		return !found
+	})
+	return found
+}
+
+// usedNames: identifiers and struct-parameter fields ("x_f") mentioned in the nodes.
+func (fc *fnCtx) usedNames(nodes []ast.Node) map[string]bool {
+	used := map[string]bool{}
+	for _, nd := range nodes {
+		ast.Inspect(nd, func(n ast.Node) bool {
+			switch x := n.(type) {
+			case *ast.Ident:
+				used[x.Name] = true
+			case *ast.SelectorExpr:
+				if key, lt, ok := fc.fieldKey(x); ok {
+					used[key] = true
+					fc.fieldsUsed[key] = lt
+				}
+			case *ast.CallExpr:
+				if recv, mi, ok := fc.methodCallee(x); ok {
+					for _, f := range mi.fields {
+						used[recv+"_"+f] = true
+					}
+				}
+			}
+			return true
+		})
+	}
+	return used
 }
 
 // loopCore emits the body definition and the loop call.
@@ -1463,7 +2357,7 @@ func (fc *fnCtx) loopCore(body *ast.BlockStmt, extra []ast.Node, ivar string, he
 		}
 	}
 	for _, n := range state {
-		if fc.isParam(n) && fc.m.ltype[n] == "List Int" {
+		if fc.isParam(n) && fc.m.ltype[n] == "List Int" && !fc.isOutVar(n) {
 			return "", fmt.Errorf("loop body writes elements of parameter %s", n)
 		}
 	}
@@ -1478,15 +2372,7 @@ func (fc *fnCtx) loopCore(body *ast.BlockStmt, extra []ast.Node, ivar string, he
 		sigma = strings.Join(stypes, " × ")
 	}
 	// free variables of the body: visible names it mentions, not state, not the loop variable
-	used := map[string]bool{}
-	for _, nd := range append([]ast.Node{body}, extra...) {
-		ast.Inspect(nd, func(n ast.Node) bool {
-			if id, ok := n.(*ast.Ident); ok {
-				used[id.Name] = true
-			}
-			return true
-		})
-	}
+	used := fc.usedNames(append([]ast.Node{body}, extra...))
 	var free []string
 	for _, n := range fc.m.declOrder {
 		if _, vis := fc.locals[n]; vis && used[n] && !stateSet[n] && n != ivar {
@@ -1512,7 +2398,9 @@ func (fc *fnCtx) loopCore(body *ast.BlockStmt, extra []ast.Node, ivar string, he
 	// ---- body definition ----
 	savedLocals := copyMap(fc.locals)
 	savedBody, savedState, savedSwitch, savedPre := fc.m.body, fc.m.state, fc.m.inSwitch, fc.m.pre
+	savedFuel, savedJoin, savedInJoin := fc.m.fuelUsed, fc.m.join, fc.m.inJoin
 	fc.m.body, fc.m.state, fc.m.inSwitch, fc.m.pre = true, state, 0, nil
+	fc.m.fuelUsed, fc.m.join, fc.m.inJoin = false, nil, false
 	var bb strings.Builder
 	iname := "i"
 	if ivar != "" {
@@ -1536,6 +2424,12 @@ func (fc *fnCtx) loopCore(body *ast.BlockStmt, extra []ast.Node, ivar string, he
 	}
 	fc.locals = savedLocals
 	fc.m.body, fc.m.state, fc.m.inSwitch, fc.m.pre = savedBody, savedState, savedSwitch, savedPre
+	innerFuel := fc.m.fuelUsed
+	fc.m.fuelUsed, fc.m.join, fc.m.inJoin = savedFuel || innerFuel, savedJoin, savedInJoin
+	if innerFuel {
+		bparams = append([]string{"(fuel : Nat)"}, bparams...)
+		bargs = append([]string{"fuel"}, bargs...)
+	}
 	fc.m.aux = append(fc.m.aux, fmt.Sprintf("/-- body of loop %d of %s (state: %s) -/\ndef %s %s (%s : Int) (st : %s) : Gzx.GoM.Ctl (%s) (%s) :=\n%s%s\n",
 		fc.m.nloops, fc.m.lean, strings.Join(state, ", "), bname, strings.Join(bparams, " "), iname, sigma, sigma, fc.m.retType, bb.String(), btext))
 	// ---- loop call and continuation ----
@@ -1561,7 +2455,87 @@ func (fc *fnCtx) loopCore(body *ast.BlockStmt, extra []ast.Node, ivar string, he
 	return sb.String() + r, nil
 }
 
+// mfor: a counted loop if the header has that shape, otherwise a `while` loop with fuel.
 func (fc *fnCtx) mfor(x *ast.ForStmt, rest []ast.Stmt, lvl int) (string, error) {
+	if x.Init == nil && x.Post == nil {
+		return fc.mwhile(x.Cond, x.Body.List, rest, lvl)
+	}
+	pre0, tmp0 := len(fc.m.pre), fc.m.tmp
+	text, err := fc.mforCounted(x, rest, lvl)
+	if err == nil {
+		return text, nil
+	}
+	if _, isHeader := err.(notCounted); !isHeader {
+		return "", err
+	}
+	fc.m.pre, fc.m.tmp = fc.m.pre[:pre0], tmp0
+	// `init; for cond { body; post }` — sound when the body has no `continue` of this loop
+	hasContinue := false
+	for _, st := range x.Body.List {
+		ast.Inspect(st, func(n ast.Node) bool {
+			switch y := n.(type) {
+			case *ast.ForStmt, *ast.RangeStmt, *ast.FuncLit:
+				return false
+			case *ast.BranchStmt:
+				if y.Tok == token.CONTINUE {
+					hasContinue = true
+				}
+			}
+			return true
+		})
+	}
+	if hasContinue && x.Post != nil {
+		return "", fmt.Errorf("%v; and the body has a continue", err)
+	}
+	var stmts []ast.Stmt
+	var initNames []string
+	if x.Init != nil {
+		as, ok := x.Init.(*ast.AssignStmt)
+		if !ok || as.Tok != token.DEFINE {
+			return "", err
+		}
+		for _, l := range as.Lhs {
+			id, ok := l.(*ast.Ident)
+			if !ok {
+				return "", err
+			}
+			if _, seen := fc.locals[id.Name]; seen {
+				return "", fmt.Errorf("loop variable shadows %s", id.Name)
+			}
+			initNames = append(initNames, id.Name)
+		}
+		stmts = append(stmts, as)
+	}
+	body := append([]ast.Stmt{}, x.Body.List...)
+	if x.Post != nil {
+		body = append(body, x.Post)
+	}
+	stmts = append(stmts, &ast.ForStmt{For: x.For, Cond: x.Cond, Body: &ast.BlockStmt{Lbrace: x.Body.Lbrace, List: body, Rbrace: x.Body.Rbrace}})
+	if len(initNames) > 0 {
+		stmts = append(stmts, &scopeEnd{names: initNames})
+	}
+	return fc.mblock(append(stmts, rest...), lvl)
+}
+
+// notCounted: the loop header is not one of the counted shapes
+type notCounted struct{ why string }
+
+func (e notCounted) Error() string { return e.why }
+
+func (fc *fnCtx) mforCounted(x *ast.ForStmt, rest []ast.Stmt, lvl int) (string, error) {
+	text, err := fc.mforCounted0(x, rest, lvl)
+	if err != nil {
+		m := err.Error()
+		if strings.HasPrefix(m, "loop is not counted") || strings.HasPrefix(m, "loop step") || strings.HasPrefix(m, "loop bound is not invariant") ||
+			strings.HasPrefix(m, "checked operation in the loop bound") || strings.HasPrefix(m, "loop variable is not a signed integer") ||
+			strings.HasPrefix(m, "loop body assigns the loop variable") {
+			return "", notCounted{m}
+		}
+	}
+	return text, err
+}
+
+func (fc *fnCtx) mforCounted0(x *ast.ForStmt, rest []ast.Stmt, lvl int) (string, error) {
 	init, ok := x.Init.(*ast.AssignStmt)
 	if !ok || init.Tok != token.DEFINE || len(init.Lhs) != 1 || len(init.Rhs) != 1 {
 		return "", fmt.Errorf("loop is not counted (init)")
@@ -1633,9 +2607,9 @@ func (fc *fnCtx) mfor(x *ast.ForStmt, rest []ast.Stmt, lvl int) (string, error) 
 	} else {
 		return "", fmt.Errorf("loop is not counted (cond)")
 	}
-	assigned, _ := assignedIn(x.Body.List)
+	assigned, _, whole := assignedIn3(x.Body.List)
 	assigned[iv.Name] = true
-	if mentions(boundE, assigned) {
+	if varies(boundE, assigned, whole) {
 		return "", fmt.Errorf("loop bound is not invariant")
 	}
 	i0, err := fc.expr(init.Rhs[0])
@@ -1687,6 +2661,235 @@ func (fc *fnCtx) mfor(x *ast.ForStmt, rest []ast.Stmt, lvl int) (string, error) 
 	return fc.loopCore(x.Body, nil, iv.Name, nil, d, trip, i0, rest, lvl)
 }
 
+// splitAnd: the conjuncts of a condition, left to right
+func splitAnd(e ast.Expr) []ast.Expr {
+	switch x := e.(type) {
+	case *ast.ParenExpr:
+		return splitAnd(x.X)
+	case *ast.BinaryExpr:
+		if x.Op == token.LAND {
+			return append(splitAnd(x.X), splitAnd(x.Y)...)
+		}
+	}
+	return []ast.Expr{e}
+}
+
+// mwhile: `for cond { body }`.  The loop is `Gzx.GoM.whileLoop body fuel st₀`: the body definition tests the
+// condition (conjunct by conjunct, so that a checked read on the right of `&&` is only made when the left holds),
+// yields `.brk` when it fails, otherwise runs the statements and yields `.next`.  Running out of fuel is
+// `.panic .fuel`; the definition takes `(fuel : Nat)` as its first parameter.
+func (fc *fnCtx) mwhile(cond ast.Expr, body []ast.Stmt, rest []ast.Stmt, lvl int) (string, error) {
+	needTie(fc.m.module)
+	assigned, declared := assignedIn(body)
+	for n := range declared {
+		if _, seen := fc.locals[n]; seen {
+			return "", fmt.Errorf("loop body redeclares %s", n)
+		}
+	}
+	var state []string
+	for _, n := range fc.m.declOrder {
+		if assigned[n] {
+			if _, seen := fc.locals[n]; seen {
+				state = append(state, n)
+			}
+		}
+	}
+	for n := range assigned {
+		if _, seen := fc.locals[n]; !seen && !declared[n] {
+			return "", fmt.Errorf("loop body assigns free identifier %s", n)
+		}
+	}
+	stateSet := map[string]bool{}
+	var stypes []string
+	for _, n := range state {
+		if fc.isParam(n) && fc.m.ltype[n] == "List Int" && !fc.isOutVar(n) {
+			return "", fmt.Errorf("loop body writes elements of parameter %s", n)
+		}
+		stateSet[n] = true
+		stypes = append(stypes, fc.m.ltype[n])
+	}
+	sigma := "Unit"
+	if len(stypes) > 0 {
+		sigma = strings.Join(stypes, " × ")
+	}
+	nodes := []ast.Node{}
+	if cond != nil {
+		nodes = append(nodes, cond)
+	}
+	for _, st := range body {
+		nodes = append(nodes, st)
+	}
+	used := fc.usedNames(nodes)
+	var free []string
+	for _, n := range fc.m.declOrder {
+		if _, vis := fc.locals[n]; vis && used[n] && !stateSet[n] {
+			free = append(free, n)
+		}
+	}
+	fc.m.nloops++
+	bname := fmt.Sprintf("%s_body%d", fc.m.lean, fc.m.nloops)
+	var bparams, bargs []string
+	for _, n := range free {
+		bparams = append(bparams, fmt.Sprintf("(%s : %s)", fc.name(n), fc.m.ltype[n]))
+		bargs = append(bargs, fc.name(n))
+	}
+	st0 := "()"
+	if len(state) > 0 {
+		var vs []string
+		for _, n := range state {
+			vs = append(vs, fc.name(n))
+		}
+		st0 = "(" + strings.Join(vs, ", ") + ")"
+	}
+	// ---- body definition ----
+	savedLocals := copyMap(fc.locals)
+	savedBody, savedState, savedSwitch, savedPre := fc.m.body, fc.m.state, fc.m.inSwitch, fc.m.pre
+	savedFuel, savedJoin, savedInJoin := fc.m.fuelUsed, fc.m.join, fc.m.inJoin
+	fc.m.body, fc.m.state, fc.m.inSwitch, fc.m.pre = true, state, 0, nil
+	fc.m.fuelUsed, fc.m.join, fc.m.inJoin = false, nil, false
+	var bb strings.Builder
+	for k, n := range state {
+		nn := fc.bump(n)
+		fmt.Fprintf(&bb, "  let %s := %s\n", nn, proj(k, len(state)))
+	}
+	exit := ".brk " + fc.stateTuple()
+	nconj := 0
+	if cond != nil {
+		for _, c := range splitAnd(cond) {
+			e, err := fc.expr(c)
+			if err != nil {
+				return "", err
+			}
+			bb.WriteString(fc.flush(1))
+			fmt.Fprintf(&bb, "  if %s then\n", e)
+			nconj++
+		}
+	}
+	btext, err := fc.mblock(body, 1)
+	if err != nil {
+		return "", err
+	}
+	for i := 0; i < nconj; i++ {
+		btext += "\n  else\n  " + exit
+	}
+	fc.locals = savedLocals
+	fc.m.body, fc.m.state, fc.m.inSwitch, fc.m.pre = savedBody, savedState, savedSwitch, savedPre
+	innerFuel := fc.m.fuelUsed
+	fc.m.fuelUsed, fc.m.join, fc.m.inJoin = true, savedJoin, savedInJoin
+	_ = savedFuel
+	if innerFuel {
+		bparams = append([]string{"(fuel : Nat)"}, bparams...)
+		bargs = append([]string{"fuel"}, bargs...)
+	}
+	fc.m.aux = append(fc.m.aux, fmt.Sprintf("/-- condition and body of `for cond` loop %d of %s (state: %s) -/\ndef %s %s (st : %s) : Gzx.GoM.Ctl (%s) (%s) :=\n%s%s\n",
+		fc.m.nloops, fc.m.lean, strings.Join(state, ", "), bname, strings.Join(bparams, " "), sigma, sigma, fc.m.retType, bb.String(), btext))
+	// ---- loop call and continuation ----
+	then := "thenR"
+	if fc.m.body {
+		then = "thenC"
+	}
+	var sb strings.Builder
+	sb.WriteString(fc.flush(lvl))
+	call := bname
+	if len(bargs) > 0 {
+		call += " " + strings.Join(bargs, " ")
+	}
+	fmt.Fprintf(&sb, "%s(Gzx.GoM.whileLoop (%s) fuel %s).%s fun st =>\n", ind(lvl), call, st0, then)
+	for k, n := range state {
+		nn := fc.bump(n)
+		fmt.Fprintf(&sb, "%slet %s := %s\n", ind(lvl), nn, proj(k, len(state)))
+	}
+	r, err := fc.mblock(rest, lvl)
+	if err != nil {
+		return "", err
+	}
+	return sb.String() + r, nil
+}
+
+// mcallStmt: a call as a statement — a translated method of a struct parameter (its written receiver fields are
+// rebound), or the builtin `copy`.
+func (fc *fnCtx) mcallStmt(call *ast.CallExpr, lvl int) (string, bool, error) {
+	if recv, mi, ok := fc.methodCallee(call); ok {
+		text, err := fc.methodCallText(recv, mi, call)
+		if err != nil {
+			return "", true, err
+		}
+		t := fc.bind(text)
+		var sb strings.Builder
+		sb.WriteString(fc.flush(lvl))
+		total := mi.nres + len(mi.outs)
+		for k, f := range mi.outs {
+			key := recv + "_" + f
+			if _, seen := fc.locals[key]; !seen {
+				return "", true, fmt.Errorf("method %s writes %s, which is not a translated field", mi.lean, key)
+			}
+			pr := t
+			if total > 1 {
+				pr = t + strings.Repeat(".2", mi.nres+k)
+				if mi.nres+k < total-1 {
+					pr += ".1"
+				}
+			}
+			nn := fc.bump(key)
+			fmt.Fprintf(&sb, "%slet %s := %s\n", ind(lvl), nn, pr)
+		}
+		return sb.String(), true, nil
+	}
+	if id, ok := call.Fun.(*ast.Ident); ok && id.Name == "copy" && len(call.Args) == 2 {
+		if _, isBuiltin := fc.p.TypesInfo.Uses[id].(*types.Builtin); !isBuiltin {
+			return "", false, nil
+		}
+		needTie(fc.m.module)
+		dst := call.Args[0]
+		var lo, hi ast.Expr
+		sliced := false
+		if se, ok := dst.(*ast.SliceExpr); ok {
+			if se.Slice3 {
+				return "", true, fmt.Errorf("copy into a 3-index slice")
+			}
+			dst, lo, hi, sliced = se.X, se.Low, se.High, true
+		}
+		key, ok := fc.lvalueKey(dst)
+		if !ok {
+			return "", true, fmt.Errorf("copy into a non-local")
+		}
+		if _, ok := fc.locals[key]; !ok || fc.m.ltype[key] != "List Int" {
+			return "", true, fmt.Errorf("copy into non-local slice %s", key)
+		}
+		if fc.isParam(key) && !fc.isOutVar(key) {
+			return "", true, fmt.Errorf("copy into parameter %s (visible to the caller)", key)
+		}
+		src, err := fc.lexpr(call.Args[1])
+		if err != nil {
+			return "", true, err
+		}
+		cur := fc.name(key)
+		var val string
+		if sliced {
+			los, his := "0", "(Gzx.GoM.len "+cur+")"
+			if lo != nil {
+				if los, err = fc.expr(lo); err != nil {
+					return "", true, err
+				}
+			}
+			if hi != nil {
+				if his, err = fc.expr(hi); err != nil {
+					return "", true, err
+				}
+			}
+			val = fc.bind(fmt.Sprintf("Gzx.GoM.copySeg %s %s %s %s", cur, los, his, src))
+		} else {
+			val = fmt.Sprintf("(Gzx.GoM.copyL %s %s)", cur, src)
+		}
+		var sb strings.Builder
+		sb.WriteString(fc.flush(lvl))
+		nn := fc.bump(key)
+		fmt.Fprintf(&sb, "%slet %s := %s\n", ind(lvl), nn, val)
+		return sb.String(), true, nil
+	}
+	return "", false, nil
+}
+
 func (fc *fnCtx) mrange(x *ast.RangeStmt, rest []ast.Stmt, lvl int) (string, error) {
 	if x.Tok != token.DEFINE && (x.Key != nil || x.Value != nil) {
 		return "", fmt.Errorf("range with assignment")
@@ -1707,9 +2910,13 @@ func (fc *fnCtx) mrange(x *ast.RangeStmt, rest []ast.Stmt, lvl int) (string, err
 	if len(fc.m.pre) > 0 {
 		return "", fmt.Errorf("checked operation in the range expression")
 	}
-	assigned, _ := assignedIn(x.Body.List)
+	assigned, _, whole := assignedIn3(x.Body.List)
 	if mentions(x.X, assigned) {
-		return "", fmt.Errorf("range expression is modified by the loop body")
+		// Go evaluates the range expression once: with no value variable only its length matters, and element
+		// writes do not change it
+		if name, viaElem := lvalName(x.X); x.Value != nil || name == "" || viaElem || whole[name] {
+			return "", fmt.Errorf("range expression is modified by the loop body")
+		}
 	}
 	ivar := ""
 	if id, ok := x.Key.(*ast.Ident); ok && id.Name != "_" {
@@ -1749,6 +2956,8 @@ func genFuncM(p *packages.Package, e entry) (string, error) {
 		return "", fmt.Errorf("function not found")
 	}
 	fc := newMCtx(p, e.module, e.lean)
+	curFC = fc
+	defer func() { curFC = nil }()
 	var fields []*ast.Field
 	if fd.Recv != nil {
 		fields = append(fields, fd.Recv.List...)
@@ -1758,6 +2967,7 @@ func genFuncM(p *packages.Package, e entry) (string, error) {
 		name string
 		st   *types.Struct
 		at   int
+		ptr  bool
 	}
 	var params []string
 	var sparams []sparam
@@ -1767,9 +2977,19 @@ func genFuncM(p *packages.Package, e entry) (string, error) {
 		lt, err := leanTypeM(t)
 		if err != nil {
 			if st := structOf(t); st != nil {
+				_, isPtr := t.Underlying().(*types.Pointer)
 				for _, n := range fl.Names {
 					fc.structs[n.Name] = st
-					sparams = append(sparams, sparam{n.Name, st, len(params)})
+					sparams = append(sparams, sparam{n.Name, st, len(params), isPtr})
+					// the fields are locals of the translation (a write rebinds them, SSA style)
+					for j := 0; j < st.NumFields(); j++ {
+						if flt, err := leanTypeM(st.Field(j).Type()); err == nil {
+							fc.declare(n.Name+"_"+st.Field(j).Name(), flt)
+						}
+					}
+					if isPtr {
+						fc.declare(n.Name+"_isNil", "Bool") // `x == nil`
+					}
 				}
 				continue
 			}
@@ -1779,18 +2999,61 @@ func genFuncM(p *packages.Package, e entry) (string, error) {
 			if n.Name == "_" {
 				return "", fmt.Errorf("blank parameter")
 			}
-			params = append(params, fmt.Sprintf("(%s : %s)", n.Name, lt))
+			params = append(params, fmt.Sprintf("(%s : %s)", leanIdent(n.Name), lt))
 			fc.declare(n.Name, lt)
 			fc.paramNames = append(fc.paramNames, n.Name)
 			nplain++
 		}
 	}
-	if fd.Type.Results == nil || len(fd.Type.Results.List) == 0 {
-		return "", fmt.Errorf("no result")
+	// tie mode: the function works on slice-typed state of a struct parameter (or writes through a pointer)
+	for key, lt := range fc.usedFieldTypes(fd.Body) {
+		if lt == "List Int" {
+			fc.m.tie = true
+		}
+		_ = key
+	}
+	// what the function writes through its pointer parameters is part of its result
+	assigned0, _ := assignedIn(fd.Body.List)
+	var outTypes []string
+	for _, sp := range sparams {
+		for j := 0; j < sp.st.NumFields(); j++ {
+			key := sp.name + "_" + sp.st.Field(j).Name()
+			if assigned0[key] {
+				if !sp.ptr {
+					return "", fmt.Errorf("write to a field of value parameter %s", sp.name)
+				}
+				lt, err := leanTypeM(sp.st.Field(j).Type())
+				if err != nil {
+					return "", fmt.Errorf("write to field %s: %v", key, err)
+				}
+				fc.m.outVars = append(fc.m.outVars, key)
+				outTypes = append(outTypes, lt)
+				fc.fieldsUsed[key] = lt
+			}
+		}
+	}
+	for _, n := range fc.paramNames {
+		if assigned0[n] && fc.m.ltype[n] == "List Int" {
+			fc.m.outVars = append(fc.m.outVars, n)
+			outTypes = append(outTypes, "List Int")
+		}
+	}
+	if len(fc.m.outVars) > 0 {
+		fc.m.tie = true
+	}
+	var resList []*ast.Field
+	if fd.Type.Results != nil {
+		resList = fd.Type.Results.List
+	}
+	if len(resList) == 0 {
+		if len(fc.m.outVars) == 0 {
+			return "", fmt.Errorf("no result")
+		}
+		fc.m.void = true
 	}
 	var rts []string
 	var named []*ast.Ident
-	for _, fl := range fd.Type.Results.List {
+	for _, fl := range resList {
 		t := p.TypesInfo.TypeOf(fl.Type)
 		lt, err := leanTypeM(t)
 		drop := false
@@ -1799,6 +3062,19 @@ func genFuncM(p *packages.Package, e entry) (string, error) {
 				lt = "Bool"
 			} else if _, isPtr := t.Underlying().(*types.Pointer); isPtr {
 				drop = true
+				if st := structOf(t); st != nil && len(fl.Names) <= 1 {
+					if _, fts, okf := structFields(st); okf && fc.structResultOK(fd, len(fc.m.dropRes)) {
+						// *T returned as the fields of T (a struct parameter or a composite literal in every return)
+						if fc.m.structRes == nil {
+							fc.m.structRes = map[int]*types.Struct{}
+						}
+						fc.m.structRes[len(fc.m.dropRes)] = st
+						fc.m.dropRes = append(fc.m.dropRes, false)
+						rts = append(rts, fts...)
+						named = append(named, fl.Names...)
+						continue
+					}
+				}
 			} else {
 				return "", err
 			}
@@ -1815,9 +3091,42 @@ func genFuncM(p *packages.Package, e entry) (string, error) {
 			}
 		}
 	}
+	// a struct parameter that is returned: its fields are already part of the result
+	if len(fc.m.structRes) > 0 {
+		retParams := map[string]bool{}
+		ast.Inspect(fd.Body, func(n ast.Node) bool {
+			if rs, ok := n.(*ast.ReturnStmt); ok {
+				for ri, r := range rs.Results {
+					if fc.m.structRes[ri] != nil {
+						if id, ok := r.(*ast.Ident); ok {
+							retParams[id.Name] = true
+						}
+					}
+				}
+			}
+			return true
+		})
+		var keep, keepT []string
+		for i, o := range fc.m.outVars {
+			covered := false
+			for rp := range retParams {
+				if strings.HasPrefix(o, rp+"_") && !fc.isParam(o) {
+					covered = true
+				}
+			}
+			if !covered {
+				keep = append(keep, o)
+				keepT = append(keepT, outTypes[i])
+			}
+		}
+		fc.m.outVars, outTypes = keep, keepT
+	}
 	if len(named) > 0 {
 		return "", fmt.Errorf("named results")
 	}
+	fc.m.resTypes = append([]string{}, rts...)
+	nres := len(rts)
+	rts = append(rts, outTypes...)
 	if len(rts) == 0 {
 		return "", fmt.Errorf("no translatable result")
 	}
@@ -1826,6 +3135,7 @@ func genFuncM(p *packages.Package, e entry) (string, error) {
 	if err != nil {
 		return "", err
 	}
+	var recvFields []string
 	for i := len(sparams) - 1; i >= 0; i-- {
 		sp := sparams[i]
 		var fps []string
@@ -1833,12 +3143,41 @@ func genFuncM(p *packages.Package, e entry) (string, error) {
 			key := sp.name + "_" + sp.st.Field(j).Name()
 			if lt, ok := fc.fieldsUsed[key]; ok {
 				fps = append(fps, fmt.Sprintf("(%s : %s)", key, lt))
+				if i == 0 {
+					recvFields = append(recvFields, sp.st.Field(j).Name())
+				}
 			}
+		}
+		if _, ok := fc.fieldsUsed[sp.name+"_isNil"]; ok {
+			fps = append([]string{fmt.Sprintf("(%s_isNil : Bool)", sp.name)}, fps...)
 		}
 		params = append(params[:sp.at], append(fps, params[sp.at:]...)...)
 	}
-	if len(sparams) == 0 {
+	if fc.m.fuelUsed {
+		params = append([]string{"(fuel : Nat)"}, params...)
+	}
+	if fd.Recv == nil && len(sparams) == 0 && len(fc.m.structRes) == 1 && len(fc.m.dropRes) == 1 && !fc.m.fuelUsed {
+		fns, _, _ := structFields(fc.m.structRes[0])
+		ctorCallees[e.module+"|"+e.pkg+"."+e.name] = ctorInfo{lean: e.lean, nplain: nplain, fields: fns}
+	}
+	if len(sparams) == 0 && !fc.m.fuelUsed && len(fc.m.outVars) == 0 {
 		callees[e.module+"|"+e.pkg+"."+e.name] = calleeInfo{lean: e.lean, nparams: nplain, nres: len(rts)}
+	}
+	if fd.Recv != nil && len(sparams) == 1 && sparams[0].at == 0 {
+		// a method whose only struct parameter is its receiver: callable from kernels translated later
+		var outs []string
+		plainOut := false
+		for _, o := range fc.m.outVars {
+			if strings.HasPrefix(o, sparams[0].name+"_") && !fc.isParam(o) {
+				outs = append(outs, strings.TrimPrefix(o, sparams[0].name+"_"))
+			} else {
+				plainOut = true
+			}
+		}
+		if !plainOut {
+			methodCallees[e.module+"|"+e.pkg+"."+e.name] = methodInfo{lean: e.lean, fields: recvFields, nplain: nplain, nres: nres,
+				outs: outs, fuel: fc.m.fuelUsed}
+		}
 	}
 	return fc.emit(e.pkg+"."+e.name, params, body), nil
 }
